@@ -16,6 +16,9 @@ type SchemaGen struct {
 	// knobs
 	NoCustomScalar bool
 	NoMutation     bool
+	// PanickySerialize: the custom scalar's Serialize panics on the value 2 ("Odd cannot represent 2");
+	// only the executor harness (whose model knows the marker) sets it
+	PanickySerialize bool
 }
 
 var leafScalars = []string{"Int", "Float", "String", "Boolean", "ID"}
@@ -145,8 +148,12 @@ func (g *SchemaGen) Schema() *gq.SchemaDesc {
 	}
 	// custom scalar
 	if !g.NoCustomScalar && r.Chance(1, 3) {
+		ser := [][2]interface{}{{1, 1}, {3, 3}, {"three", 3}}
+		if g.PanickySerialize {
+			ser = append(ser, [2]interface{}{2, map[string]interface{}{"$panic": true}})
+		}
 		s.Types = append(s.Types, gq.TypeDesc{Kind: "SCALAR", Name: "Odd",
-			Serialize:    [][2]interface{}{{1, 1}, {3, 3}, {"three", 3}},
+			Serialize:    ser,
 			ParseValue:   [][2]interface{}{{1, 1}, {3, 3}, {"3", 3}},
 			ParseLiteral: [][2]interface{}{{1, 1}, {3, 3}, {"3", 3}}})
 	}
